@@ -2,7 +2,11 @@
 // per program, the distinct (code object, ip, relative stack height) triples observed before
 // every executed instruction, plus the outcome class.
 //
-//	c04obs trace  < hex sources   ->  OUTCOME \t codeidhex:ip:h,codeidhex:ip:h,...
+//	c04obs trace [moddir] < hex sources   ->  OUTCOME \t steps=N;sp=K \t conflict=.. \t codeidhex:ip:h,...
+//	c04obs outcome [moddir] < hex sources ->  OUTCOME \t sp=K        (no tracing: for scaled loops)
+//
+// sp is the operand stack pointer after a successful run (0 = exactly the result).  The globals are len,
+// print, try and error; modules are imported from moddir when given.
 package main
 
 import (
@@ -17,6 +21,8 @@ import (
 
 	"github.com/risor-io/risor"
 	"github.com/risor-io/risor/builtins"
+	"github.com/risor-io/risor/compiler"
+	"github.com/risor-io/risor/parser"
 	"github.com/risor-io/risor/object"
 	"github.com/risor-io/risor/vm"
 )
@@ -42,6 +48,13 @@ func errClass(m string) string {
 func main() {
 	w := bufio.NewWriterSize(os.Stdout, 1<<20)
 	defer w.Flush()
+	mode, moddir := "trace", ""
+	if len(os.Args) > 1 {
+		mode = os.Args[1]
+	}
+	if len(os.Args) > 2 {
+		moddir = os.Args[2]
+	}
 	sc := bufio.NewScanner(os.Stdin)
 	sc.Buffer(make([]byte, 1<<20), 1<<24)
 	for sc.Scan() {
@@ -51,7 +64,7 @@ func main() {
 		multi := map[string]int{} // code:ip -> first height; detects pc-dependent-only violation directly
 		conflict := ""
 		steps := 0
-		vm.VerifTrace = func(codeID string, ip int, h int) {
+		traceFn := func(codeID string, ip int, h int) {
 			steps++
 			k := fmt.Sprintf("%s:%d", hex.EncodeToString([]byte(codeID)), ip)
 			if h0, ok := multi[k]; ok {
@@ -65,7 +78,13 @@ func main() {
 				}
 			}
 		}
+		if mode == "outcome" {
+			vm.VerifTrace = nil
+		} else {
+			vm.VerifTrace = traceFn
+		}
 		outcome := ""
+		finalSP := -2
 		func() {
 			defer func() {
 				if r := recover(); r != nil {
@@ -77,8 +96,23 @@ func main() {
 			printFn := object.NewBuiltin("print", func(ctx context.Context, args ...object.Object) object.Object {
 				return object.Nil
 			})
-			globals := map[string]any{"len": builtins.Builtins()["len"], "print": printFn}
-			_, err := risor.Eval(ctx, src, risor.WithoutDefaultGlobals(), risor.WithGlobals(globals), risor.WithConcurrency())
+			globals := map[string]any{"len": builtins.Builtins()["len"], "print": printFn, "try": builtins.Builtins()["try"],
+				"error": builtins.Builtins()["error"]}
+			opts := []risor.Option{risor.WithoutDefaultGlobals(), risor.WithGlobals(globals), risor.WithConcurrency()}
+			if moddir != "" {
+				opts = append(opts, risor.WithLocalImporter(moddir))
+			}
+			cfg := risor.NewConfig(opts...)
+			ast, err := parser.Parse(ctx, src)
+			var code *compiler.Code
+			if err == nil {
+				code, err = compiler.Compile(ast, cfg.CompilerOpts()...)
+			}
+			if err == nil {
+				machine := vm.New(code, cfg.VMOpts()...)
+				err = machine.Run(ctx)
+				finalSP = machine.VerifSP()
+			}
 			if err != nil {
 				outcome = "ERR " + errClass(err.Error())
 			} else {
@@ -91,6 +125,10 @@ func main() {
 			keys = append(keys, k)
 		}
 		sort.Strings(keys)
-		fmt.Fprintf(w, "%s\tsteps=%d\tconflict=%s\t%s\n", outcome, steps, conflict, strings.Join(keys, ","))
+		if mode == "outcome" {
+			fmt.Fprintf(w, "%s\tsp=%d\n", outcome, finalSP)
+			continue
+		}
+		fmt.Fprintf(w, "%s\tsteps=%d;sp=%d\tconflict=%s\t%s\n", outcome, steps, finalSP, conflict, strings.Join(keys, ","))
 	}
 }
